@@ -94,6 +94,58 @@ pub fn run(property: &str, tier: &str, replay: Option<Value>) -> ! {
             rep.violation(f.v);
         }
     }
+    // environment deviation: the lease file is locked by another process while one message is
+    // handled (write lock, and exclusive lock), from every state kept by the search
+    {
+        use rayon::prelude::*;
+        let bd = if tier == "thorough" { 2 } else { 1 };
+        let msgs: Vec<&MsgOp> = alpha.ops.iter().filter_map(|o| if let Op::Msg(m) = o { Some(m) } else { None }).collect();
+        let sts: Vec<&State> = stats.reached.iter().filter(|(_, d)| *d <= bd).map(|(s, _)| s).collect();
+        let results: Vec<(u64, u64, Vec<Found>, Option<String>)> = sts
+            .par_iter()
+            .map(|st| {
+                let (mut n, mut replies, mut found, mut err) = (0u64, 0u64, vec![], None);
+                for m in &msgs {
+                    for exclusive in [false, true] {
+                        n += 1;
+                        match step_busy(st, m, &cfgs, exclusive) {
+                            Ok((res, post)) => {
+                                if matches!(res, StepResult::Reply(_)) {
+                                    replies += 1;
+                                }
+                                for jd in judge_under_fault(st, m, &res, &post, &cfgs) {
+                                    let op = Op::Msg((*m).clone());
+                                    let mut case = case_json_from(st, &[&op], &cfgs);
+                                    case["store_locked"] = json!(if exclusive { "exclusive" } else { "write" });
+                                    let mut v = Violation::new(jd.oracle, format!("while another process held {} lock on the lease file: {}", if exclusive { "an exclusive" } else { "a write" }, jd.what), case);
+                                    for (k, val) in jd.sig {
+                                        v = v.sig(k, val);
+                                    }
+                                    found.push(Found { property: jd.property, v: v.sig("fault", "store-locked") });
+                                }
+                            }
+                            Err(e) => err = Some(e),
+                        }
+                    }
+                }
+                (n, replies, found, err)
+            })
+            .collect();
+        let (mut n, mut replies) = (0u64, 0u64);
+        for (k, r, found, err) in results {
+            n += k;
+            replies += r;
+            if let Some(e) = err {
+                rep.machinery_error(format!("store-locked deviation: {e}"));
+            }
+            for f in found {
+                if f.property == property {
+                    rep.violation(f.v);
+                }
+            }
+        }
+        rep.cov("store_locked_deviation", json!({"states": sts.len(), "state_depth": bd, "transitions": n, "answered_while_locked": replies, "rule": "every message of the alphabet on every kept state, on a file-backed store (tmpfs) that a second connection keeps locked (BEGIN IMMEDIATE, and BEGIN EXCLUSIVE) for the duration of the message; busy time-out 0; whatever is answered must be recorded as answered, whatever is not must leave the store as it was"}));
+    }
     // long-lived histories (no reopen between messages): same oracles, path by path
     let roots = longlived_roots();
     let ll_alpha = longlived_alphabet(&cfgs, tier == "thorough");
